@@ -98,9 +98,11 @@ CLAIMS = {
              "[pi/6, pi/2] for oblique groups and NO angle handle for rectangular ones, x, y in [-1/2, 1/2], orientation in [0, 2 pi], "
              "with a defined initial score and the group's copy count.  Theorem (induction over the run, any score oracle and "
              "random stream): every handled parameter stays in its handle's range and every other parameter keeps its value - "
-             "binary64 provided no sampled value is NaN, reals unconditionally; the held state's score is always defined; chained "
+             "reals unconditionally, and binary64 unconditionally too for finite ranges and step sizes of magnitude <= 2^300 and draws "
+             "in [-1, 1] (C08_ranges_binary64_unconditional: no sample of the run is NaN, because the step ratio of every reachable "
+             "state is a positive number <= 1 - sign analysis of IEEE * / + through Flocq); the held state's score is always defined; chained "
              "stages use sub-ranges.  Monitors check ranges, family, finite score on chains of 1-5 optimisation stages of clones.",
-        note=OPT_NOTE + "  Finiteness of the sampled value (no inf*0) is a premise, monitored; that EVERY shape of well-defined "
+        note=OPT_NOTE + "  Magnitudes above 2^300 are outside the unconditional theorem (monitored); that EVERY shape of well-defined "
              "area starts from a valid state is checked for the dumped shapes only (polygon, circle, trimer), not proved for all."),
     "C02": dict(
         engine="geom", design_ref="DESIGN.md section 4 C02",
